@@ -80,6 +80,15 @@ def check_run(rep, r, crit):
     # R3 / R4: dispatch order
     solves = r.of('solve')
     seq = []
+    # a plain solve outside the dispatch that can only be issued while NO solve has happened yet (no criterion had anything
+    # to optimise) starts no chain and breaks none: it is exempt from the chain rules (typestate of C14.R1, with counters)
+    from ..typestate import Walker
+    from .c14 import optimal_terms
+    tw = Walker(optimal_terms())
+    tw.walk(r.effs, frozenset({('init', None)}))
+    initial_only = [s for s in solves if tw.solve_states.get(id(s.eff), set()) <= {'init'}
+                    and not [it for it in s.iters if it.value[0] == 'tuple' and is_enum_member(it.value[1][0])]]
+    solves = [s for s in solves if s not in initial_only]
     for s in solves:
         top = [it for it in s.iters if it.value[0] == 'tuple' and is_enum_member(it.value[1][0])]
         if not top:
